@@ -45,7 +45,12 @@ fn kv_small() -> f32 { let v: i8 = kani::any(); kani::assume(v >= -4 && v <= 4);
 fn kv_gain(silent: bool) -> Decibels { if silent { Decibels::SILENCE } else { Decibels::IDENTITY } }
 
 struct KvWorld { clocks: Clocks, modulators: Modulators, listeners: Listeners }
-fn kv_world() -> KvWorld { KvWorld { clocks: Clocks::new(0).0, modulators: Modulators::new(0).0, listeners: Listeners::new(0).0 } }
+fn kv_world() -> KvWorld {
+	// the controllers are forgotten, not dropped: dropping them runs the ring buffers' drop loops
+	let (clocks, a) = Clocks::new(0); let (modulators, b) = Modulators::new(0); let (listeners, c) = Listeners::new(0);
+	std::mem::forget(a); std::mem::forget(b); std::mem::forget(c);
+	KvWorld { clocks, modulators, listeners }
+}
 
 fn kv_track(n_sounds: usize, effects: Vec<Box<dyn EffectTrait>>, sends: Vec<(SendTrackId, SendTrackRoute)>, volume: Decibels, buffer: usize) -> Track {
 	let (sounds, sc) = ResourceStorage::new(n_sounds);
